@@ -91,6 +91,8 @@ class Norm(ast.NodeTransformer):
         self.generic_visit(n)
         if isinstance(n.test, ast.UnaryOp) and isinstance(n.test.op, ast.Not) and n.orelse:      # `if not c: A else: B` = `if c: B else: A`
             return ast.If(test=n.test.operand, body=n.orelse, orelse=n.body)
+        if isinstance(n.test, ast.Compare) and len(n.test.ops) == 1 and isinstance(n.test.ops[0], ast.IsNot) and n.orelse:   # `is not None` + else
+            return ast.If(test=ast.Compare(left=n.test.left, ops=[ast.Is()], comparators=n.test.comparators), body=n.orelse, orelse=n.body)
         return n
 
     def visit_Dict(self, n):
@@ -146,6 +148,8 @@ FUNCS = [
     ("ArrayAttribute.clear", "denseClear", "dense", [], "Unit", False),
 ]
 CONT_FUNCS = [
+    ("_BaseDataContainer.__init__", "baseContInit", "cont", ["OptAttrDict", "Str"], "Unit", False),
+    ("DataContainer.__init__", "contInit", "cont", ["OptElems", "OptAttrDict", "Str"], "Unit", False),
     ("DataContainer.__len__", "contLen", "cont", [], "Nat", True),
     ("_BaseDataContainer.has_attribute", "hasAttribute", "cont", ["Str"], "Bool", True),
     ("_BaseDataContainer.create_attribute", "createAttribute", "cont", ["Str", "Ty", "Nat", "Bool", "OptScalar", "OptNat"], "Self", False),
@@ -157,7 +161,7 @@ CONT_FUNCS = [
     ("DataContainer.__iadd__", "contIadd", "cont", ["Other"], "Unit", False),
 ]
 LEAN_TY = {"Nat": "Nat", "Int": "Int", "Bool": "Bool", "Ty": "Ty", "InVal": "InVal", "OptScalar": "Option Scalar", "OptNat": "Option Nat",
-           "Str": "String", "Other": "Other", "ArrIn": "ArrIn", "Unit": "Unit", "Res": "Res", "Self": "Self", "Mat": "List Val", "Scalars": "List Scalar"}
+           "Str": "String", "Other": "Other", "ArrIn": "ArrIn", "OptAttrDict": "Option (List (String × Self))", "OptElems": "Option (List Nat)", "Unit": "Unit", "Res": "Res", "Self": "Self", "Mat": "List Val", "Scalars": "List Scalar"}
 LEAN_OF = {q: l for q, l, *_ in FUNCS + CONT_FUNCS}
 SELF_FIELDS = {"elemsize": ("self.elemsize", "Nat"), "n_elem": ("self.nElem", "Nat"), "type": ("self.type", "Ty"),
                "_default_value": ("self.dv", "OptScalar"), "default_value": ("(defaultValue self)", "Dflt")}
@@ -176,6 +180,9 @@ class Fn:
         args = [a.arg for a in node.args.args]
         if not args or args[0] != "self": raise TranslateError(f"{qual}: first parameter is not self")
         args = args[1:]
+        for dflt in list(node.args.defaults) + [d for d in node.args.kw_defaults if d is not None]:
+            if isinstance(dflt, (ast.Dict, ast.List, ast.Set, ast.Call, ast.ListComp, ast.DictComp)):
+                raise TranslateError(f"{qual}: mutable default argument `{ast.unparse(dflt)}` (ONE object shared by every call)")
         if node.args.vararg is not None and qual == "ArrayAttribute.as_array": args = []
         if len(args) != len(ptypes): raise TranslateError(f"{qual}: {len(args)} parameters, expected {len(ptypes)}")
         self.env = {}
@@ -202,6 +209,7 @@ class Fn:
         if isinstance(n, ast.Name):
             if n.id in self.env: return self.env[n.id]
             self.err("unknown name", n)
+        if isinstance(n, ast.List) and not n.elts: return "[]", "Elems"
         if isinstance(n, ast.Constant):
             if isinstance(n.value, bool): return ("true" if n.value else "false"), "Bool"
             if isinstance(n.value, int): return str(n.value), "Nat"
@@ -263,7 +271,7 @@ class Fn:
         if isinstance(op, (ast.Is, ast.IsNot)):
             if not (isinstance(r, ast.Constant) and r.value is None): self.err("`is` with something else than None", n)
             a, t = self.E(l, pre)
-            if t not in ("OptScalar", "OptNat"): self.err("`is None` on a value that is never None here", n)
+            if t not in ("OptScalar", "OptNat", "OptAttrDict", "OptElems"): self.err("`is None` on a value that is never None here", n)
             return f"{a}.{'isNone' if isinstance(op, ast.Is) else 'isSome'}", "Bool"
         if isinstance(op, (ast.In, ast.NotIn)):
             a, ta = self.E(l, pre); b, tb = self.E(r, pre)
@@ -362,6 +370,7 @@ class Fn:
                 v = self.fresh()
                 pre.append(("match", f"pyList {a}", v)); return v, "Scalars"
             if t == "Other": return f"{a}.elems", "Elems"
+            if t == "OptElems": return f"({a}.getD [])", "Elems"          # `list(data)`: a NEW list of the caller's elements
             self.err("list() of an unsupported value", n)
         if f == "type" and len(A) == 1:
             a, t = self.E(A[0], pre)
@@ -479,6 +488,10 @@ class Fn:
                 if not isinstance(st, (ast.Assign, ast.Assert)): self.err("unsupported statement in a try block", st)
                 st._try_err = err
             return self.S(s.body + rest)
+        if isinstance(s, ast.Assert) and not self.try_err and isinstance(s.test, ast.Call) and ast.unparse(s.test.func) == "isinstance" \
+                and len(s.test.args) == 2 and isinstance(s.test.args[0], ast.Name) and s.test.args[0].id in self.env \
+                and self.env[s.test.args[0].id][1] == "OptAttrDict" and ast.unparse(s.test.args[1]) == "dict":
+            return self.S(rest)          # a type assertion on a parameter the vocabulary already types as a dict
         if isinstance(s, ast.Assert):
             if not self.try_err: self.err("assert outside a try block", s)
             c, t = self.E(s.test, pre)
@@ -584,6 +597,13 @@ class Fn:
             if tgt.attr == "_data" and ((isinstance(val, ast.List) and not val.elts) or ast.unparse(val) == "list()"):
                 return "let self := { self with data := [] }\n" + self.S(rest)
             a, t = self.E(val, pre)
+            if tgt.attr == "_data" and t == "Elems":
+                return self.emit_pre(pre, f"let self := {{ self with data := {a} }}\n" + self.S(rest))
+            if tgt.attr == "id" and t == "Str":
+                return self.emit_pre(pre, f"let self := {{ self with id := {a} }}\n" + self.S(rest))
+            if tgt.attr == "_attr" and t == "OptAttrDict":
+                # the caller's dict object itself is adopted (no copy); the guard `is None` was taken just before
+                return self.emit_pre(pre, f"let self := {{ self with attr := ({a}.getD []) }}\n" + self.S(rest))
             if tgt.attr == "_attr" and t == "EmptyDict":
                 return "let self := { self with attr := [] }\n" + self.S(rest)
             self.err("assignment to an unknown container field", s)
@@ -619,6 +639,14 @@ class Fn:
         if self.cls == "sparse" and f == "self._data.clear" and not c.args and not self.check_mode:
             # emptying the dict in place: nobody else holds the dict object, same as binding a new empty one
             return "let self := { self with data := .dict [] }\n" + self.S(rest)
+        if f == "super().__init__" and self.cls == "cont" and self.qual == "DataContainer.__init__" and not c.keywords:
+            args = []
+            for x, w in zip(c.args, ["OptAttrDict", "Str"]):
+                a, t = self.E(x, pre)
+                if t != w: self.err(f"argument of the base constructor is a {t}, expected {w}", c)
+                args.append(a)
+            if len(args) != 2: self.err("base constructor arguments", c)
+            return self.emit_pre(pre, f"match baseContInit {' '.join(args)} h self with\n| .error e => .error e\n| .ok (_, h, self) =>\n" + self.S(rest))
         if isinstance(c.func, ast.Attribute) and isinstance(c.func.value, ast.Name) and c.func.value.id == "self":
             m = c.func.attr
             owner = {"_check_default_value_type": "_BaseAttribute", "_check_out_of_bounds": "ArrayAttribute"}.get(m)
@@ -747,6 +775,26 @@ def _default_value_property(tree):
             "  match self.dv with\n  | none => typeDefaultValue self.type self.elemsize\n  | some d => .scalar d\n")
 
 
+def _type_dtype(tree):
+    """`Type.dtype` property: `if self == Attribute.Type.String: return "<U32"` ; `return self.value`"""
+    fn = T.find_def(tree, "_BaseAttribute.Type.dtype")
+    b = _strip([Norm().visit(copy.deepcopy(x)) for x in fn.body])
+    MEM = {"Bool": "bool", "Int": "int", "Float": "float", "Complex": "complex", "String": "str"}
+    if len(b) != 2 or not isinstance(b[0], ast.If) or b[0].orelse or len(b[0].body) != 1 or not isinstance(b[0].body[0], ast.Return):
+        raise TranslateError("Type.dtype: `if self == <member>: return <dtype>` ; `return self.value` not recognised")
+    t = b[0].test
+    if not (isinstance(t, ast.Compare) and len(t.ops) == 1 and isinstance(t.ops[0], ast.Eq)): raise TranslateError("Type.dtype: guard")
+    sides = [ast.unparse(t.left), ast.unparse(t.comparators[0])]
+    mem = next((x for x in sides if x != "self"), None)
+    if "self" not in sides or mem is None or mem.split(".")[-1] not in MEM or ".Type." not in "." + mem:
+        raise TranslateError(f"Type.dtype: guard is not `self == Attribute.Type.<member>`: {sides}")
+    rv = b[0].body[0].value
+    if not (isinstance(rv, ast.Constant) and rv.value == "<U32"): raise TranslateError(f"Type.dtype: the special dtype is not '<U32': {ast.unparse(rv)}")
+    if not (isinstance(b[1], ast.Return) and ast.unparse(b[1].value) == "self.value"): raise TranslateError("Type.dtype: default branch is not `return self.value`")
+    return ("/-- `Type.dtype` (property): the fixed-width unicode dtype for the guarded member, the member's own value otherwise -/\n"
+            f"def typeDtype (t : Ty) : DType :=\n  if t = .{MEM[mem.split('.')[-1]]} then .u32 else .ofType t\n")
+
+
 def translate_sites():
     """-> (sites, lean text or None, {qualname: ok})"""
     sites, chunks, status = [], [], {}
@@ -766,6 +814,10 @@ def translate_sites():
         chunks.append(_default_value_property(atree)); return "memo idiom; Type.default_value vector branch"
     status["_BaseAttribute.default_value"] = one("mesh_attributes.py:default_value property (body)", dv)
     status["_BaseAttribute.Type.default_value"] = status["_BaseAttribute.default_value"]
+
+    def dt():
+        chunks.append(_type_dtype(atree)); return "guarded member -> '<U32', else self.value"
+    status["_BaseAttribute.Type.dtype"] = one("mesh_attributes.py:Type.dtype (body)", dt)
 
     def mk(tree, fileshort, spec):
         qual, lean, cls, ptypes, ret, pure = spec
